@@ -25,48 +25,67 @@ Definition cookie_prefix : list byte := l4rdp_RDPCookiePrefix.
 Definition token_prefix : list byte := l4rdp_RDPTokenOptionalCookiePrefix.
 
 (* ---- codecs ---- *)
+(* binary.Read(buf, order, &struct) is io.ReadFull of the struct size followed by decoding the fields in
+   order; written as one read per field (the same bytes are consumed); the unread tail is returned *)
 Record tpkt := { tp_version : N; tp_reserved : N; tp_length : N }.
-Definition tpkt_decode (d : list byte) : tpkt :=
-  {| tp_version := be_N (firstn 1 d); tp_reserved := be_N (firstn 1 (skipn 1 d)); tp_length := be_N (firstn 2 (skipn 2 d)) |}.
+Definition tpkt_read (b : list byte) : option (tpkt * list byte) :=
+  match read_full 1 b with None => None | Some (v, r1) =>
+  match read_full 1 r1 with None => None | Some (rs, r2) =>
+  match read_full 2 r2 with None => None | Some (ln, r3) =>
+    Some ({| tp_version := be_N v; tp_reserved := be_N rs; tp_length := be_N ln |}, r3)
+  end end end.
 Definition tpkt_from_bytes (b : list byte) : result tpkt :=
   if negb (length b =? tpkt_total) then Err
-  else match read_full tpkt_total b with None => Err | Some (d, _) => Ok (tpkt_decode d) end.
+  else match tpkt_read b with None => Err | Some (h, _) => Ok h end.
 Definition tpkt_to_bytes (h : tpkt) : list byte :=
   N_to_be 1 (tp_version h) ++ N_to_be 1 (tp_reserved h) ++ N_to_be 2 (tp_length h).
 Definition tpkt_wf (h : tpkt) : Prop := (tp_version h < two8)%N /\ (tp_reserved h < two8)%N /\ (tp_length h < two16)%N.
 
 Record x224 := { x_length : N; x_typecredit : N; x_dstref : N; x_srcref : N; x_classopts : N }.
-Definition x224_decode (d : list byte) : x224 :=
-  {| x_length := be_N (firstn 1 d); x_typecredit := be_N (firstn 1 (skipn 1 d));
-     x_dstref := be_N (firstn 2 (skipn 2 d)); x_srcref := be_N (firstn 2 (skipn 4 d));
-     x_classopts := be_N (firstn 1 (skipn 6 d)) |}.
+Definition x224_read (b : list byte) : option (x224 * list byte) :=
+  match read_full 1 b with None => None | Some (l, r1) =>
+  match read_full 1 r1 with None => None | Some (tc, r2) =>
+  match read_full 2 r2 with None => None | Some (dr, r3) =>
+  match read_full 2 r3 with None => None | Some (sr, r4) =>
+  match read_full 1 r4 with None => None | Some (co, r5) =>
+    Some ({| x_length := be_N l; x_typecredit := be_N tc; x_dstref := be_N dr; x_srcref := be_N sr; x_classopts := be_N co |}, r5)
+  end end end end end.
 Definition x224_from_bytes (b : list byte) : result x224 :=
   if negb (length b =? x224_total) then Err
-  else match read_full x224_total b with None => Err | Some (d, _) => Ok (x224_decode d) end.
+  else match x224_read b with None => Err | Some (x, _) => Ok x end.
 Definition x224_to_bytes (x : x224) : list byte :=
   N_to_be 1 (x_length x) ++ N_to_be 1 (x_typecredit x) ++ N_to_be 2 (x_dstref x) ++ N_to_be 2 (x_srcref x) ++ N_to_be 1 (x_classopts x).
 Definition x224_wf (x : x224) : Prop :=
   (x_length x < two8)%N /\ (x_typecredit x < two8)%N /\ (x_dstref x < two16)%N /\ (x_srcref x < two16)%N /\ (x_classopts x < two8)%N.
 
 Record negreq := { nr_type : N; nr_flags : N; nr_length : N; nr_protocols : N }.
-Definition negreq_decode (d : list byte) : negreq :=
-  {| nr_type := le_N (firstn 1 d); nr_flags := le_N (firstn 1 (skipn 1 d));
-     nr_length := le_N (firstn 2 (skipn 2 d)); nr_protocols := le_N (firstn 4 (skipn 4 d)) |}.
+Definition negreq_read (b : list byte) : option (negreq * list byte) :=
+  match read_full 1 b with None => None | Some (t, r1) =>
+  match read_full 1 r1 with None => None | Some (f, r2) =>
+  match read_full 2 r2 with None => None | Some (l, r3) =>
+  match read_full 4 r3 with None => None | Some (p, r4) =>
+    Some ({| nr_type := le_N t; nr_flags := le_N f; nr_length := le_N l; nr_protocols := le_N p |}, r4)
+  end end end end.
 Definition negreq_from_bytes (b : list byte) : result negreq :=
   if negb (length b =? negreq_total) then Err
-  else match read_full negreq_total b with None => Err | Some (d, _) => Ok (negreq_decode d) end.
+  else match negreq_read b with None => Err | Some (r, _) => Ok r end.
 Definition negreq_to_bytes (r : negreq) : list byte :=
   N_to_le 1 (nr_type r) ++ N_to_le 1 (nr_flags r) ++ N_to_le 2 (nr_length r) ++ N_to_le 4 (nr_protocols r).
 Definition negreq_wf (r : negreq) : Prop :=
   (nr_type r < two8)%N /\ (nr_flags r < two8)%N /\ (nr_length r < two16)%N /\ (nr_protocols r < two32)%N.
 
 Record corrinfo := { ci_type : N; ci_flags : N; ci_length : N; ci_identity : list byte; ci_reserved : list byte }.
-Definition corr_decode (d : list byte) : corrinfo :=
-  {| ci_type := le_N (firstn 1 d); ci_flags := le_N (firstn 1 (skipn 1 d)); ci_length := le_N (firstn 2 (skipn 2 d));
-     ci_identity := firstn 16 (skipn 4 d); ci_reserved := firstn 16 (skipn 20 d) |}.
+Definition corr_read (b : list byte) : option (corrinfo * list byte) :=
+  match read_full 1 b with None => None | Some (t, r1) =>
+  match read_full 1 r1 with None => None | Some (f, r2) =>
+  match read_full 2 r2 with None => None | Some (l, r3) =>
+  match read_full 16 r3 with None => None | Some (id, r4) =>
+  match read_full 16 r4 with None => None | Some (rs, r5) =>
+    Some ({| ci_type := le_N t; ci_flags := le_N f; ci_length := le_N l; ci_identity := id; ci_reserved := rs |}, r5)
+  end end end end end.
 Definition corr_from_bytes (b : list byte) : result corrinfo :=
   if negb (length b =? corr_total) then Err
-  else match read_full corr_total b with None => Err | Some (d, _) => Ok (corr_decode d) end.
+  else match corr_read b with None => Err | Some (i, _) => Ok i end.
 Definition corr_to_bytes (i : corrinfo) : list byte :=
   N_to_le 1 (ci_type i) ++ N_to_le 1 (ci_flags i) ++ N_to_le 2 (ci_length i) ++ ci_identity i ++ ci_reserved i.
 Definition corr_wf (i : corrinfo) : Prop :=
